@@ -648,7 +648,9 @@ class Extractor:
                     lab = en[1].ar[aid][1] if aid in en[1].ar else None
                     if lab is not None and sp.simplify(self.size_of(lab) - 3) == 0 and info["start"] == 0 and not lab.lo:
                         ee = ee.subs(ar, c)
-                if isinstance(en[1].e, ARange) and ("ar", int(en[1].e.args[0])) in ren:
+                if isinstance(en[1].e, ARange) and ("ar", int(en[1].e.args[0])) in ren and ren[("ar", int(en[1].e.args[0]))].base == "xyz":
+                    ee = c  # identity along the Cartesian-component axis: the generic component
+                elif isinstance(en[1].e, ARange) and ("ar", int(en[1].e.args[0])) in ren:
                     ee = Iota(sp.Symbol(str(ren[("ar", int(en[1].e.args[0]))])))  # identity index along that axis
                 idx_exprs.append(ee)
             else:
